@@ -270,7 +270,8 @@ func checkC12(c C12Case) (o Outcome) {
 		if v = c12CheckState(c, ps, g, coms, amt, &feat); v != nil {
 			return
 		}
-		for _, i := range c12Order(c.Decls) {
+		order := c12Order(c.Decls)
+		for k, i := range order {
 			d := c.Decls[i]
 			pr, err := decimal.NewFromString(d.P)
 			if err != nil {
@@ -295,6 +296,11 @@ func checkC12(c C12Case) (o Outcome) {
 					return
 				}
 				g.Declare(d.C, ref.R(d.P), d.T)
+			}
+			// price lists of realistic size are judged after every 16th declaration and at the end (every state of
+			// a 160-commodity list costs a second)
+			if len(c.Coms) > 16 && k%16 != 15 && k != len(order)-1 {
+				continue
 			}
 			if v = c12CheckState(c, ps, g, coms, amt, &feat); v != nil {
 				v.With("after", line)
